@@ -195,3 +195,49 @@ Print Assumptions spec_holds_of_model.
 Theorem judge_big_eq : forall c, Concrete.judge c = Concrete.judge_Z c.
 Proof. exact Proofs.C04.judge_big_eq. Qed.
 Print Assumptions judge_big_eq.
+
+(* ---- the same buffers used again: decoding is a function of the bytes ---- *)
+
+(* decoding the caller's buffer k times (the decoder reads the buffer, never writes it) returns k
+   times the result of the first decode and leaves the buffer as it was; for every decoder, in
+   particular decompress1 / decompress2 *)
+Theorem decompress_repeatable : forall (R : Type) (dec : list N -> R) k buf,
+  decode_again dec k buf = (repeat (dec buf) k, buf).
+Proof. exact (@Proofs.C04.decode_again_spec). Qed.
+Print Assumptions decompress_repeatable.
+
+(* soundness of the executable form judged on every run: later decodes of the same buffer equal
+   the first, the input buffer (resp. the point handed to Compress, the message handed to
+   G1HashToPoint) is unchanged, and the decoded point of a round trip compresses to the bytes it
+   was decoded from *)
+Theorem reuse_ok_sound : forall u, reuse_ok u = true -> Proofs.C04.reuse_good u.
+Proof. exact Proofs.C04.reuse_ok_sound. Qed.
+Print Assumptions reuse_ok_sound.
+
+(* ... and the model's own observations pass it: three decodes of one buffer through
+   [decode_again]; for a round trip under the conclusion of g1_roundtrip / g2_roundtrip *)
+Theorem reuse_holds_of_model :
+  (forall m, m <> [] ->
+     (match decompress1 P (mod_sqrt P) m with Panic1 => False | _ => True end) ->
+     let '(ds, m') := decode_again (decompress1 P (mod_sqrt P)) 3 m in
+     reuse_ok (UDec1 m (nth 0 ds Panic1) (nth 1 ds Panic1) (nth 2 ds Panic1) m' None) = true) /\
+  (forall pt, decompress1 P (mod_sqrt P) (compress1 pt) = R1 pt ->
+     let '(ds, buf) := decode_again (decompress1 P (mod_sqrt P)) 3 (compress1 pt) in
+     reuse_ok (URound1 pt (CBytes (compress1 pt)) (nth 0 ds Panic1) (nth 1 ds Panic1) (nth 2 ds Panic1)
+                       (CBytes buf) pt (Some (CBytes (compress1 pt)))) = true) /\
+  (forall insub pt, decompress2 P (sqrt_gfp2 P) insub (compress2 pt) = R2 pt ->
+     let '(ds, buf) := decode_again (decompress2 P (sqrt_gfp2 P) insub) 3 (compress2 pt) in
+     reuse_ok (URound2 pt (CBytes (compress2 pt)) (nth 0 ds Panic2) (nth 1 ds Panic2) (nth 2 ds Panic2)
+                       (CBytes buf) pt (Some (CBytes (compress2 pt)))) = true).
+Proof.
+  split; [|split].
+  - intros m Hm Hd. generalize (Proofs.C04.reuse_holds_of_model_dec1 P (mod_sqrt P) m).
+    destruct (decode_again _ 3 m). auto.
+  - intros pt H. exact (Proofs.C04.reuse_holds_of_model_round1 P (mod_sqrt P) pt H).
+  - intros insub pt H. exact (Proofs.C04.reuse_holds_of_model_round2 P (sqrt_gfp2 P) insub pt H).
+Qed.
+Print Assumptions reuse_holds_of_model.
+
+Theorem judge_u_big_eq : forall u, Concrete.judge_u u = Concrete.judge_u_Z u.
+Proof. exact Proofs.C04.judge_u_big_eq. Qed.
+Print Assumptions judge_u_big_eq.
